@@ -32,7 +32,9 @@ U64 = 2 ** 64
 MEMBERS = {
     'none': [[]],
     'word': [['x'], ['foo.txt'], ["'a b'"], ['"c d"'], ["'a  b'"], ['"c\td"'], ["'e\nf'"], ['"  g  "'], ["'h \t i'"], ['"*/my\tdir/*"'], ["'.* \\( .*'"], ['"x \\! y"'], ['a"b'], ['x*'], ['é'], ["'q)r'"], ['-print'], ['5'], ["'-o'"],
-             ['"dir\\"'], ["'dir\\'"], ['dir\\'], ['"a\\\\"'], ['"C:\\tmp\\"'], ['"a\\b"'], ['"{}"'], ['{mdt}'], ["'a(b'"], ['":)"'], ['日本'], ["'é x'"]],
+             ['"dir\\"'], ["'dir\\'"], ['dir\\'], ['"a\\\\"'], ['"C:\\tmp\\"'], ['"a\\b"'], ['"{}"'], ['{mdt}'], ["'a(b'"], ['":)"'], ['日本'], ["'é x'"],
+             # spellings a path- or key-normalising reader would rewrite: the value must be kept exactly as written
+             ['a//b'], ['a/./b'], ['dir/'], ['dir/.'], ['./x'], ['../x'], ['/abs//x/'], ["'logs//scan.out'"], ['"/srv//lists/./files/"'], ['x/i'], ['ci-x'], ['A.TXT'], ['x.']],
     'cmp32': [['0'], ['5'], ['+5'], ['-5'], ['007'], [str(U32 - 1)], ['+' + str(U32 - 1)], ['-0'], ['00000000000000000001']],
     'cmp64': [['0'], ['5'], ['+5'], ['-5'], [str(U32)], [str(U64 - 1)], ['+' + str(U64 - 1)]],
     'u32': [['0'], ['4'], ['16'], [str(U32 - 1)], ['0008']],
@@ -254,6 +256,16 @@ def gen_numeric(tier, rnd):
         for text in ['-threads %d -name x -depth', '-depth -threads %d -name x', '-threads %d ( -name x -o -depth )', '-name x -threads %d -depth',
                      '-depth -name x -threads %d', '-threads %d -depth', '-threads %d -name x ( -depth ) -print']:
             lines.append('C %s %s #threads=%d' % (hx(text % v), hx('/dev/x'), v))
+    # the thread count next to every kind of primary, in particular with each action as the LAST operand of the
+    # top-level chain (a generator that adapts the scan call to the expression must still pass the count on)
+    lasts = ['-quit', '-print', '-print0', '-fprint out', "-printf '%p\\n'", "-printf '%p'", '-print-file-fid', '-true', '-false', '-empty',
+             '-name y', '-size +1k', '-perm 644', '( -name y -quit )', '! -quit', '-name y -o -quit', '-name y , -quit', '-type f -quit',
+             '-print -quit', '-fprint0 z -quit']
+    for v in [0, 1, 2, 8, U32 - 1]:
+        for last in lasts:
+            for text in ['-threads %d -name x %s', '-name x -threads %d %s', '-threads %d %s', '-depth -threads %d -name x -print %s',
+                         '( -threads %d -name x ) %s', '-threads 3 -name x -threads %d %s']:
+                lines.append('C %s %s #threads=%d' % (hx(text % (v, last)), hx('/dev/x'), v))
     # every letter (and some punctuation) as a would-be unit suffix, with small and huge counts:
     # a suffix is either a documented unit (exact product) or the argument is rejected
     import string
@@ -303,6 +315,17 @@ def gen_perm(tier, rnd):
         n = rnd.choice([3, 4])
         pre = rnd.choice(['', '-', '/'])
         lines.append(prim_request('C', '-perm', [pre + ','.join(rnd.choice(singles) for _ in range(n))], 'alone', ' ' + hx('/')))
+    # who and permission parts with REPEATED letters (chmod: a letter given twice means what it means once); every
+    # character of a clause is a universally quantified variable of C08_written, so repeats are varied too
+    reps_who = ['uu', 'ugu', 'aa', 'oo', 'gog', 'uau', 'ggg', 'ou']
+    reps_perm = ['rr', 'ww', 'xx', 'rwr', 'rxx', 'wxw', 'rrr', 'xwx', 'rwxrwx', 'xxr', 'wr', 'xr']
+    for w in ['u', 'g', 'o', 'a', 'ug', 'go'] + reps_who:
+        for op in '+=-':
+            for pm in ['r', 'w', 'x', 'rw'] + reps_perm:
+                if w in reps_who or pm in reps_perm:
+                    for pre in ['', '-', '/']:
+                        lines.append(prim_request('C', '-perm', [pre + w + op + pm], 'alone', ' ' + hx('/')))
+                        lines.append(prim_request('C', '-perm', [pre + 'u=rwx,' + w + op + pm + ',o+r'], 'alone', ' ' + hx('/')))
     # longer octal spellings: leading zeros keep the value, anything beyond 07777 is not a mode and must be rejected
     longs = ['00644', '0007777', '000000', '10000', '17777', '20644', '100755', '77777', '777777', '7777777', '40000', '07778', '12345670', '37777777777', '40000000000']
     for _ in range(200 if tier == 'quick' else 5000):
@@ -326,8 +349,36 @@ def gen_perm(tier, rnd):
 FMT_ALPHABET = ['%', '\\', '{', '}', ':', 'a', 'n', 'p', 'q', 'A', '@', '0', '1', '7', '8', 'x', 'é', '日', '\U0001f600']
 
 
+def octal_runs():
+    """Runs of octal escapes that spell (or almost spell) a UTF-8 byte sequence, as lists of values."""
+    runs = []
+    conts = [0o200, 0o226, 0o251, 0o273, 0o277]
+    for lead in range(0o300, 0o340):
+        for c in conts + [0o177, 0o300, 0o101]:
+            runs.append([lead, c])
+    for lead in range(0o340, 0o360):
+        for c1 in (0o200, 0o202, 0o277):
+            for c2 in (0o200, 0o254, 0o277):
+                runs.append([lead, c1, c2])
+    for lead in range(0o360, 0o370):
+        runs.append([lead, 0o237, 0o230, 0o200])
+        runs.append([lead, 0o220, 0o200])
+    for c in conts:
+        runs.append([c, 0o303]); runs.append([c, c]); runs.append([0o101, c])
+    return runs
+
+
 def gen_format(tier, rnd):
     lines = []
+    # every ordered pair of escapes / directives next to each other, and octal escapes in a row (each escape is ONE
+    # element whatever stands beside it)
+    for a in ESCAPES + DIRECTIVES:
+        for b in ESCAPES + DIRECTIVES:
+            lines.append(prim_request('P', '-printf', ["'" + a + b + "'"], 'alone'))
+    for run in octal_runs():
+        esc = ''.join('\\%03o' % v for v in run)
+        for pre, post in [('', ''), ('caf', ' %p\\n'), ('%p', 'x')]:
+            lines.append(prim_request('P', '-printf', ["'" + pre + esc + post + "'"], 'alone'))
     maxlen = 4 if tier == 'quick' else 5
     for n in range(1, maxlen + 1):
         for combo in itertools.product(FMT_ALPHABET, repeat=n):
@@ -374,7 +425,22 @@ for _k in ('time', 'cmp32', 'cmp64', 'u32', 'size', 'types', 'perm'):
 # operator, a doubled sign): the message must still quote the whole word
 for _k in ('time', 'cmp32', 'cmp64', 'size'):
     BADWORDS[_k] = BADWORDS[_k] + ['+big', '-x', '--3', '-', '+', '+-1', '-+2', '++5', '-print', '-o', '+k', '-@', '+é', "-'q'"]
-VALID_PRIMS = ['-true', '-name a', '-uid 5', '-type f', '-size +1k', '-print', '-empty']
+for _k in ('time', 'cmp32', 'cmp64', 'u32', 'size', 'types', 'perm'):
+    BADWORDS[_k] = BADWORDS[_k] + ['""', "''", '""x"', "''y'", '"' * 3, "'" * 3, '"' * 4]
+VALID_PRIMS = ['-true', '-name a', '-uid 5', '-type f', '-size +1k', '-print', '-empty', '-name "a b"', "-name 'q r'", '-fprint "out"', "-pool 'p'"]
+
+
+def word_of(w):
+    """The word the quote/word reader takes at the start of w (w has no blank outside quotes): the content of a
+    non-empty quoted string, otherwise the bare word (an empty pair of quotes is not a quoted string)."""
+    if w and w[0] in '\'"':
+        j = w.find(w[0], 1)
+        if j > 1:
+            return w[1:j]
+    for k, c in enumerate(w):
+        if c in ' \t\r\n)':
+            return w[:k]
+    return w
 
 
 def gen_errors(tier, rnd):
@@ -403,15 +469,17 @@ def gen_errors(tier, rnd):
                     for npost in range(0, 3):
                         post = [rnd.choice(VALID_PRIMS) for _ in range(npost)]
                         text = ' '.join(pre + [kw, bad] + post)
-                        word = bad[1:-1] if bad[0] in '\'"' and bad[-1] == bad[0] and len(bad) > 1 else bad
+                        # the reader sees the REST of the input: a quote opened by the bad word may be closed by a
+                        # quote character of a later primary (then the quoted text in between is the word)
+                        word = word_of(' '.join([bad] + post))
                         lines.append('P %s #kind=%s #kw=%s #word=%s' % (hx(text), k, hx(kw), hx(word)))
     for _ in range(5000 if tier == 'quick' else 50000):
         n = rnd.randint(0, 4)
         ws = [rnd.choice(VALID_PRIMS) for _ in range(n)]
-        w = rnd.choice(['bogus', '-zzz', '@@', 'foo.bar', '"abc"', "'d.e'", '-Name', '#', 'é', '--x'] + ['-' + x for x in LONG_BAD[::4]] + LONG_BAD[1::6])
+        w = rnd.choice(['bogus', '-zzz', '@@', 'foo.bar', '"abc"', "'d.e'", '-Name', '#', 'é', '--x', '""', "''", '""x"', "''y'"] + ['-' + x for x in LONG_BAD[::4]] + LONG_BAD[1::6])
         pos = rnd.randint(0, n)
         ws.insert(pos, w)
-        word = w[1:-1] if w[0] in '\'"' else w
+        word = word_of(' '.join(ws[pos:]))
         lines.append('P %s #kind=unknown #word=%s' % (hx(' '.join(ws)), hx(word)))
     return lines, {'rule': 'every argument-taking keyword x (end of input | words invalid from their first character | for two-argument primaries: first argument present and second missing at end of input, before a blank, before a glued or spaced closing parenthesis) after 0..3 valid primaries and before 0..2, plus unknown words (bare and quoted) at random positions; non-trivial = every request',
                    'streams': {'errors': len(lines)}}
@@ -667,6 +735,20 @@ def gen_layout(tier, rnd):
         for lb in ['', ' ', '  ', '\t', '\n', '\r\n  ', ' \t\r\n ']:
             for tb in ['', ' ', '\n']:
                 lines.append('P %s #grp=lead%d' % (hx(lb + ' '.join(body) + tb), gi))
+    # characters that are white space for Rust's char::is_whitespace / is_ascii_whitespace / trim but are NOT blanks
+    # of this grammar (form feed, vertical tab, NEL, NBSP, U+2028 ...): at the start and the end of a value they are
+    # part of the value in every spelling, last word of the input or not
+    gi = 0
+    for ws in ['\x0c', '\x0b', '\x85', '\xa0', '\u2028', '\u3000', '\x1c', '\x1f', '\u200b', '\ufeff']:
+        for val in ['report' + ws, ws + 'report', ws, 'a' + ws + 'b', ws + ws]:
+            for kw in ['-name', '-fprint', '-pool']:
+                for tail in ['', ' ', '\n', ' -print', ' )']:
+                    gi += 1
+                    head = '( ' if tail == ' )' else ''
+                    for sp in [val, "'" + val + "'", '"' + val + '"']:
+                        lines.append('P %s #grp=ws%d' % (hx(head + kw + ' ' + sp + tail), gi))
+        for text in [ws, ws + '-true', '-true' + ws, '-true ' + ws, ws + ' -true', '-name x ' + ws + ' -print']:
+            lines.append('P %s' % hx(text))
     for i, s in enumerate(['', ' ', '\t', '\n', '\r', ' \t\r\n ', '   ']):
         lines.append('P %s #grp=blank' % hx('-true' if i == 0 else s))
         lines.append('P %s #grp=blank' % hx(s))
